@@ -345,6 +345,13 @@ def observe(sm):
     return {"current": sm.current_state.name, "active": sorted(s.name for s in sts if s.active)}
 
 
+def _plain(sm):
+    """Plain-valued attributes of the machine object (remembered sub-states and the like): a refused request must not change them."""
+    from mc import hbfs  # noqa: PLC0415
+
+    return [(n, v) for n, v in hbfs.plain_attrs(sm) if not n.startswith("_transition")]
+
+
 def ancestors(st):
     out = []
     while st is not None:
@@ -381,17 +388,22 @@ def check_shipped(case):
                             sm._perform_transition(prev)
                         except Exception:  # noqa: BLE001
                             pass
-                    before = observe(sm)
+                    before = dict(observe(sm), attrs=_plain(sm))
                     cur = sm.current_state
                     tr = sm.transition(nm)
                     allowed = cur in tr.sources
                     raised = None
                     try:
-                        sm._perform_transition(nm)
+                        # through the machine's own public method of that name where it has one (it may do more than the transition)
+                        wrapper = getattr(type(sm), nm, None)
+                        if callable(wrapper):
+                            wrapper(sm)
+                        else:
+                            sm._perform_transition(nm)
                     except Exception as exc:  # noqa: BLE001
                         raised = type(exc).__name__
                     nsteps += 1
-                    after = observe(sm)
+                    after = dict(observe(sm), attrs=_plain(sm))
                     sig = None
                     if not allowed:
                         if raised != "WrongSourceStateError":
